@@ -184,6 +184,8 @@ pub fn run(ctx: &mut Ctx) {
             let op = Op::Eval(src);
             let r = apply(&mut xs, &op);
             ops.push(op);
+            // a front end abandons a stopped program (`abort_run`): that gives nothing of the budget back
+            if ctx.rng.chance(30) { apply(&mut xs, &Op::Abort); ops.push(Op::Abort); ctx.tag("sources:abort_run"); }
             let blk = if kind == "rejected-after-meta" && (r.contains("UnknownWord") || r.contains("ControlFlow")) { 2 * k } else if r == "ok" { 2 * k } else { 0 };
             executed_at_least += blk;
             let c = case(&ops);
@@ -217,5 +219,31 @@ pub fn run(ctx: &mut Ctx) {
         let ok = matches!(r2, Some(Ok(()))) && xs.get_data(0) == Some(&Cell::Int(5));
         ctx.check(ok, || c.clone(), || "works normally after the limit is raised".into(), || format!("{:?}", r2));
         ctx.tag("heap-limit");
+    }
+    // the same through the API a host (and the module loaders) use to declare variables: a `defvar` that the heap limit
+    // refuses fails and leaves nothing behind — the name means what it meant before (nothing, or the older variable)
+    for _ in 0..12 {
+        let mut xs = base.clone();
+        let h0 = xs.verif_dump().heap.len();
+        let redefine = ctx.rng.bool();
+        if redefine { let _ = xs.defvar("X".into(), Cell::Int(1)); }
+        let h = xs.verif_dump().heap.len();
+        xs.set_heap_limit(Some(h)).unwrap();
+        let d0 = xs.verif_dump().dict_len;
+        let r = crate::guarded(|| xs.defvar("X".into(), Cell::Int(2)).map(|_| ()));
+        let d1 = xs.verif_dump();
+        let c = format!("C14 defvar(\"X\") with the heap at its limit {} ({})", h, if redefine { "X exists" } else { "X is new" });
+        ctx.check(matches!(r, Some(Err(_))) && d1.heap.len() == h && d1.dict_len == d0, || c.clone(), || format!("refused; heap {} dict {}", h, d0), || format!("{:?}; heap {} dict {}", r.as_ref().map(|x| x.is_ok()), d1.heap.len(), d1.dict_len));
+        let use_x = crate::guarded(|| xs.eval("X"));
+        let top = xs.get_data(0).cloned();
+        let ok = if redefine { matches!(use_x, Some(Ok(()))) && top == Some(Cell::Int(1)) } else { matches!(use_x, Some(Err(Xerr::UnknownWord(_)))) };
+        ctx.check(ok, || format!("{}; then `X`", c), || (if redefine { "the older X: 1" } else { "unknown word" }).to_string(), || format!("{:?} top {:?}", use_x, top));
+        xs.set_heap_limit(Some(h + 1)).unwrap();
+        let r2 = crate::guarded(|| xs.defvar("Y".into(), Cell::Int(42)).map(|_| ()));
+        let use_y = crate::guarded(|| xs.eval("Y"));
+        let topy = xs.get_data(0).cloned();
+        ctx.check(matches!(r2, Some(Ok(()))) && matches!(use_y, Some(Ok(()))) && topy == Some(Cell::Int(42)), || format!("{}; limit raised, defvar(\"Y\", 42), `Y`", c), || "42".into(), || format!("{:?} {:?} top {:?}", r2.map(|x| x.is_ok()), use_y, topy));
+        let _ = h0;
+        ctx.tag("heap-limit:defvar");
     }
 }
